@@ -35,6 +35,7 @@ struct Run<'a> {
     orphaned: Vec<(AbsTx, CompactTx)>,
     /// also project the note commitment trees (C06) after every operation
     trees: bool,
+    salt: u64,
 }
 
 impl<'a> Run<'a> {
@@ -43,7 +44,7 @@ impl<'a> Run<'a> {
         let (w, keys) = W::new(ironwood);
         let chain = Chain::new(w.base, keys, &mut rng, ironwood);
         let trees = std::env::var("VERIF_TREES").map(|v| v == "1").unwrap_or(false);
-        let mut r = Run { w, chain, out, rng, ironwood, next_value: 0, aborted: false, orphaned: vec![], trees };
+        let mut r = Run { w, chain, out, rng, ironwood, next_value: 0, aborted: false, orphaned: vec![], trees, salt: seed };
         let post = r.post();
         r.out.emit(&json!({"a": "reset", "hist": label, "ironwood": ironwood, "post": post}));
         r
@@ -52,7 +53,8 @@ impl<'a> Run<'a> {
     fn post(&mut self) -> Value {
         let mut p = self.w.project(&self.chain);
         if self.trees {
-            p["trees"] = self.w.project_trees(&self.chain);
+            self.salt += 1;
+            p["trees"] = self.w.project_trees(&self.chain, self.salt);
         }
         p
     }
@@ -424,12 +426,64 @@ fn scenarios(out: &mut NdjsonWriter) {
     }
 }
 
+/// C06 scenarios: more non-empty blocks than the checkpoint budget (100), one pool silent for long
+/// stretches, batches of different sizes, then rewinds to the newest, a middle and the oldest
+/// retained checkpoint
+fn tree_scenarios(out: &mut NdjsonWriter, ironwood: bool, variants: &[u64]) {
+    for &variant in variants {
+        let mut r = Run::new(out, 7000 + variant, ironwood, json!(format!("T v{variant} iw={ironwood}")));
+        let mut rng = ChaChaRng::seed_from_u64(variant);
+        for i in 0..130u32 {
+            // Sapling-only stretch, Orchard-only stretch, mixed, some empty blocks
+            let pool = match (variant, i) {
+                (0, _) => if i % 2 == 0 { Pool::Sapling } else { Pool::Orchard },
+                (1, 0..=59) => Pool::Sapling,
+                (1, _) => Pool::Orchard,
+                (_, _) => if ironwood && i % 3 == 0 { Pool::Ironwood } else if i % 3 == 1 { Pool::Orchard } else { Pool::Sapling },
+            };
+            if i % 11 == 10 {
+                r.empties(1);
+            } else {
+                let foreign = i % 4 != 0;
+                r.block(&[TxReq { outs: vec![OutReq { pool, acct: if foreign { 0 } else { 1 }, internal: false, diversified: false, value: 20_000 + i as u64 }], spends: vec![], foreign_spends: vec![] }], &[], false);
+            }
+            if i % 17 == 16 || i == 129 {
+                r.tip_top();
+                // scan what is new in batches of varying size
+                loop {
+                    let scanned = r.scanned();
+                    let top = r.chain.top();
+                    let Some(from) = (r.chain.base + 1..=top).find(|h| !scanned.contains(&r.w.rel(*h))) else { break };
+                    let limit = rng.gen_range(1..9);
+                    if !r.scan(from, limit) { break }
+                }
+            }
+        }
+        let top = r.chain.top();
+        r.trunc(top - 1, true);
+        r.empties(2);
+        r.catch_up_and_fresh();
+        let top = r.chain.top();
+        r.trunc(top - 50, true);
+        r.empties(3);
+        r.catch_up_and_fresh();
+        let top = r.chain.top();
+        r.trunc(top.saturating_sub(99).max(r.chain.base + 1), false);
+        r.catch_up_and_fresh();
+    }
+}
+
 fn main() {
     quiet_panics();
     let args: Vec<String> = std::env::args().collect();
     let mut out = NdjsonWriter::create(&args[1]);
     if args[2] == "scenarios" {
         scenarios(&mut out);
+    } else if args[2] == "tree-scenarios" {
+        // quick: one variant per network; "all": every variant on both
+        let all = args.get(3).map(|s| s == "all").unwrap_or(false);
+        tree_scenarios(&mut out, false, if all { &[0, 1, 2] } else { &[1] });
+        tree_scenarios(&mut out, true, if all { &[0, 1, 2] } else { &[2] });
     } else {
         let histories: usize = args[2].parse().unwrap();
         let ops: usize = args[3].parse().unwrap();
